@@ -44,6 +44,7 @@ def read_xwaves(filename):
 
     # Setting standard attributes
     set_spec_attributes(dset)
+    dset = dset.sortby(attrs.TIMENAME)
 
     return dset
 
